@@ -186,6 +186,29 @@ def run_history(ctx, g, rng, length):
                     problems = ["after saving and loading the IR: " + p for p in problems]
                     break
                 continue
+        if rng.random() < 0.06:
+            # ... or the whole scene is COPIED (copy.deepcopy, or a pickle round trip) and the history goes on with the copies: the
+            # copied CFG is the same set of edges over the copied nodes (labels are compared by value: the copies of the stored labels
+            # are as good as the ones the harness keeps building its edges from)
+            import copy
+            import pickle
+            how = rng.choice(["deepcopy", "pickle"])
+            bundle = (env.ir, env.ir2, env.nodes, env.m_here, env.m_other, env.bi_here, env.bi_other)
+            try:
+                bundle = copy.deepcopy(bundle) if how == "deepcopy" else pickle.loads(pickle.dumps(bundle, protocol=rng.choice([2, 4, 5])))
+            except Exception as e:  # noqa: BLE001
+                problems.append("%s of the IR with its CFG raised %s" % (how, exc_name(g, e)))
+                break
+            env.ir, env.ir2, env.nodes, env.m_here, env.m_other, env.bi_here, env.bi_other = bundle
+            cfg = env.ir.cfg
+            env.num = {id(n): i + 1 for i, n in enumerate(env.nodes)}
+            del sides[:]
+            ctx.count("copied_mid_history:" + how)
+            observe(full=True)
+            if problems:
+                problems = ["after a %s of the IR (the history continues on the copy): %s" % (how, p) for p in problems]
+                break
+            continue
         if rng.random() < 0.06 and len(sides) < 3:
             # another CFG / another IR constructed FROM this CFG object: a set of its own from then on
             how = rng.choice(["CFG(cfg)", "IR(cfg=cfg)", "set-then-CFG"])
